@@ -2,12 +2,12 @@
 import vlib
 
 
-def pair(run, layer, lines, timeout=900):
+def pair(run, layer, lines, timeout=900, min_chunk=64):
     """run the same request lines through the real library (harness) and the Lean driver"""
     exe = vlib.build_harness("asan")
-    impl = vlib.run_lines([exe, layer], lines, timeout=timeout)
+    impl = vlib.run_lines([exe, layer], lines, timeout=timeout, min_chunk=min_chunk)
     if run.driver_ok:
-        model = vlib.run_lines([vlib.driver_exe()], lines, timeout=timeout)
+        model = vlib.run_lines([vlib.driver_exe()], lines, timeout=timeout, min_chunk=min_chunk)
     else:
         model = [None] * len(lines)
     return impl, model
